@@ -641,4 +641,262 @@ theorem hunkLoop_ok : ∀ (fuel : Nat) (inp : Bytes) (ac rc : Nat) (h : PHunk) (
               refine ⟨by omega, by omega, by omega, i4, i5, fun hi => i6 (hi' hi)⟩
 
 
+/-- what later stages need of a parsed hunk -/
+def HunkGood (hk : PHunk) : Prop :=
+  hk.WF ∧ 0 ≤ hk.remLine ∧ 0 ≤ hk.addLine ∧ hk.remLine < 2^63 ∧ hk.addLine < 2^63
+
+theorem startLine_bounds (line count : Nat) (h : line ≤ 2^63 - 1) :
+    0 ≤ startLine line count ∧ startLine line count < 2^63 := by
+  unfold startLine
+  split <;> omega
+
+theorem parseHunk_ok (inp r : Bytes) (hk : PHunk) (h : parseHunk inp = .ok (r, hk)) :
+    r.length < inp.length ∧ hk.add.length ≤ inp.length - r.length ∧ hk.rem.length ≤ inp.length - r.length ∧
+    HunkGood hk := by
+  unfold parseHunk at h
+  split at h
+  · simp at h
+  · simp at h
+  · rename_i r1 hd hh
+    obtain ⟨g1, g2, g3⟩ := parseHunkHeader_ok _ _ _ hh
+    obtain ⟨i1, i2, i3, i4, i5, i6⟩ := hunkLoop_ok _ _ _ _ _ _ _ _ h
+    simp only [List.length_nil] at i2 i3
+    obtain ⟨b, hb⟩ := i6 (by refine ⟨?_, ?_, ?_, ?_, ?_⟩ <;> simp)
+    have s1 := startLine_bounds hd.remLine hd.remCount g2
+    have s2 := startLine_bounds hd.addLine hd.addCount g3
+    refine ⟨by omega, by omega, by omega, HInv_WF _ _ hb, ?_, ?_, ?_, ?_⟩
+    · rw [i4]; exact s1.1
+    · rw [i5]; exact s2.1
+    · rw [i4]; exact s1.2
+    · rw [i5]; exact s2.2
+
+theorem parseHunk_fuel (inp : Bytes) : parseHunk inp ≠ .error .outOfFuel := by
+  unfold parseHunk
+  split
+  · simp
+  · simp
+  · exact hunkLoop_fuel _ _ _ _ _ _ (by omega)
+
+theorem hunksLoop_fuel : ∀ (fuel : Nat) (inp : Bytes) (acc : List PHunk),
+    inp.length < fuel → hunksLoop fuel inp acc ≠ .error .outOfFuel := by
+  intro fuel
+  induction fuel with
+  | zero => intro inp acc hf; omega
+  | succ n ih =>
+    intro inp acc hf
+    unfold hunksLoop
+    split
+    · rename_i r h hp
+      have := (parseHunk_ok _ _ _ hp).1
+      exact ih _ _ (by omega)
+    · simp
+    · rename_i e hne he
+      intro hc
+      simp only [Except.error.injEq] at hc; subst hc
+      exact parseHunk_fuel _ he
+
+theorem hunksLoop_ok : ∀ (fuel : Nat) (inp : Bytes) (acc : List PHunk) (r : Bytes) (hs : List PHunk),
+    hunksLoop fuel inp acc = .ok (r, hs) →
+    r.length ≤ inp.length ∧ ((∀ h ∈ acc, HunkGood h) → ∀ h ∈ hs, HunkGood h) := by
+  intro fuel
+  induction fuel with
+  | zero => intro inp acc r hs h; simp [hunksLoop] at h
+  | succ n ih =>
+    intro inp acc r hs h
+    unfold hunksLoop at h
+    split at h
+    · rename_i r1 h1 hp
+      obtain ⟨p1, _, _, p4⟩ := parseHunk_ok _ _ _ hp
+      obtain ⟨i1, i2⟩ := ih _ _ _ _ h
+      refine ⟨by omega, fun hacc => i2 ?_⟩
+      intro x hx
+      rcases List.mem_append.mp hx with hx | hx
+      · exact hacc x hx
+      · simp only [List.mem_singleton] at hx; subst hx; exact p4
+    · simp only [Except.ok.injEq, Prod.mk.injEq] at h
+      obtain ⟨rfl, rfl⟩ := h
+      exact ⟨by omega, fun hacc => hacc⟩
+    · simp at h
+
+/-- what later stages need of a parsed file patch -/
+def FPGood (fp : PFilePatch) : Prop :=
+  (fp.old.isSome ∨ fp.new.isSome) ∧
+  (fp.kind ≠ .modify → fp.hunks.length = 1) ∧
+  (fp.rename = true → fp.old.isSome ∧ fp.new.isSome) ∧
+  ∀ hk ∈ fp.hunks, HunkGood hk
+
+theorem recognizeKind_len (hs : List PHunk) (h : recognizeKind hs ≠ .modify) : hs.length = 1 := by
+  unfold recognizeKind at h
+  split at h
+  · rfl
+  · exact absurd rfl h
+
+theorem buildFilePatch_some (m : Meta) (hs : List PHunk) (fp : PFilePatch)
+    (h : buildFilePatch m hs = some fp) (hhs : ∀ hk ∈ hs, HunkGood hk) : FPGood fp := by
+  unfold buildFilePatch at h
+  simp only at h
+  split at h
+  · simp at h
+  · split at h
+    · simp at h
+    · rename_i c1 c2
+      simp only [Option.some.injEq] at h
+      subst h
+      refine ⟨?_, ?_, ?_, ?_⟩
+      · simp only
+        cases h1 : (realName m.old).isSome <;> cases h2 : (realName m.new).isSome <;>
+          cases h3 : (m.renFrom && m.renTo) <;> simp_all
+      · simp only; exact recognizeKind_len hs
+      · simp only
+        cases h1 : (realName m.old).isSome <;> cases h2 : (realName m.new).isSome <;>
+          cases h3 : (m.renFrom && m.renTo) <;> simp_all
+      · exact hhs
+
+theorem stripFP_good (n : Nat) (fp : PFilePatch) (h : FPGood fp) : FPGood (stripFP n fp) := by
+  obtain ⟨h1, h2, h3, h4⟩ := h
+  refine ⟨?_, h2, ?_, h4⟩
+  · simp only [stripFP, Option.isSome_map]; exact h1
+  · simp only [stripFP, Option.isSome_map]; exact h3
+
+
+/-- a result of `filePatchLoop` is fine: fuel not exhausted; on success input was consumed and the file
+patch is well formed -/
+def FPLGood (total : Nat) (res : Except EB (Bytes × Nat × PFilePatch)) : Prop :=
+  res ≠ .error .outOfFuel ∧ ∀ r hl fp, res = .ok (r, hl, fp) → r.length < total ∧ FPGood fp
+
+theorem FPLGood_error (total : Nat) (e : EB) (h : e ≠ .outOfFuel) : FPLGood total (.error e) :=
+  ⟨by intro hc; simp only [Except.error.injEq] at hc; exact h hc, by intro r hl fp hc; cases hc⟩
+
+theorem FPLGood_ok (total : Nat) (r : Bytes) (hl : Nat) (fp : PFilePatch) (h1 : r.length < total)
+    (h2 : FPGood fp) : FPLGood total (.ok (r, hl, fp)) := by
+  refine ⟨by simp, ?_⟩
+  intro r' hl' fp' hc
+  simp only [Except.ok.injEq, Prod.mk.injEq] at hc
+  obtain ⟨rfl, rfl, rfl⟩ := hc
+  exact ⟨h1, h2⟩
+
+theorem filePatchLoop_spec (total : Nat) : ∀ (fuel : Nat) (inp : Bytes) (wh : Bool) (header : Nat)
+    (git ext : Bool) (m : Meta),
+    inp.length ≤ total → inp.length < fuel →
+    ((ext = true ∨ haveFilename m = true) → inp.length < total) →
+    FPLGood total (filePatchLoop total fuel inp wh header git ext m) := by
+  intro fuel
+  induction fuel with
+  | zero => intro inp wh header git ext m _ hf; omega
+  | succ n ih =>
+    intro inp wh header git ext m hle hf hinv
+    unfold filePatchLoop
+    extract_lets hnm
+    by_cases hcnd : (!haveFilename m || hnm) = true
+    · rw [if_pos hcnd]
+      split
+      · rename_i e he
+        have := parsePatchLine_err _ _ _ he
+        subst this
+        exact FPLGood_error _ _ (by simp)
+      · rename_i inp' pl hp
+        obtain ⟨hle', hlt⟩ := parsePatchLine_ok _ _ _ _ hp
+        cases pl with
+        | garbage =>
+          have hlt := hlt (by intro hc; cases hc)
+          exact ih _ _ _ _ _ _ (by omega) (by omega) (fun _ => by omega)
+        | endOfPatch =>
+          simp only
+          split
+          · rename_i hext
+            split
+            · rename_i fp hb
+              exact FPLGood_ok _ _ _ _ (hinv (Or.inl hext)) (buildFilePatch_some _ _ _ hb (by simp))
+            · exact FPLGood_error _ _ (by simp)
+          · exact FPLGood_error _ _ (by simp)
+        | mline ml =>
+          have hlt := hlt (by intro hc; cases hc)
+          cases ml with
+          | gitDiff o n =>
+            simp only
+            split
+            · rename_i fp hd
+              split at hd
+              · rename_i hext
+                exact FPLGood_ok _ _ _ _ (hinv (Or.inl hext)) (buildFilePatch_some _ _ _ hd (by simp))
+              · simp at hd
+            · exact ih _ _ _ _ _ _ (by omega) (by omega) (fun _ => by omega)
+          | minus f => exact ih _ _ _ _ _ _ (by omega) (by omega) (fun _ => by omega)
+          | plus f => exact ih _ _ _ _ _ _ (by omega) (by omega) (fun _ => by omega)
+        | git gl =>
+          have hlt := hlt (by intro hc; cases hc)
+          cases gl
+          case binary => exact FPLGood_error _ _ (by simp)
+          all_goals exact ih _ _ _ _ _ _ (by omega) (by omega) (fun _ => by omega)
+    · rw [if_neg hcnd]
+      have hfn : haveFilename m = true := by
+        cases hh : haveFilename m
+        · simp [hh] at hcnd
+        · rfl
+      have hlt := hinv (Or.inr hfn)
+      split
+      · rename_i e he
+        refine FPLGood_error _ _ ?_
+        intro hc; subst hc
+        exact hunksLoop_fuel _ _ _ (by omega) he
+      · rename_i inp' hs hh
+        obtain ⟨h1, h2⟩ := hunksLoop_ok _ _ _ _ _ hh
+        split
+        · exact FPLGood_error _ _ (by simp)
+        · rename_i fp hb
+          exact FPLGood_ok _ _ _ _ (by omega) (buildFilePatch_some _ _ _ hb (h2 (by simp)))
+
+theorem parseFilePatch_spec (bytes : Bytes) (wh : Bool) : FPLGood bytes.length (parseFilePatch bytes wh) := by
+  unfold parseFilePatch
+  exact filePatchLoop_spec _ _ _ _ _ _ _ _ (by omega) (by omega) (by simp [haveFilename])
+
+theorem patchLoop_spec (strip : Nat) : ∀ (fuel : Nat) (inp : Bytes) (wants : Bool) (header : Bytes)
+    (acc : List PFilePatch), inp.length < fuel → (∀ fp ∈ acc, FPGood fp) →
+    patchLoop strip fuel inp wants header acc ≠ .error .outOfFuel ∧
+    ∀ p, patchLoop strip fuel inp wants header acc = .ok p → ∀ fp ∈ p.fps, FPGood fp := by
+  intro fuel
+  induction fuel with
+  | zero => intro inp wants header acc hf; omega
+  | succ n ih =>
+    intro inp wants header acc hf hacc
+    unfold patchLoop
+    have hspec := parseFilePatch_spec inp wants
+    split
+    · refine ⟨by simp, ?_⟩
+      intro p hp
+      simp only [Except.ok.injEq] at hp
+      subst hp
+      exact hacc
+    · rename_i e hne he
+      refine ⟨?_, by intro p hp; cases hp⟩
+      intro hc
+      simp only [Except.error.injEq] at hc; subst hc
+      rw [he] at hspec
+      exact hspec.1 rfl
+    · rename_i inp' hlen fp hp
+      rw [hp] at hspec
+      obtain ⟨g1, g2⟩ := hspec.2 _ _ _ rfl
+      refine ih _ _ _ _ (by omega) ?_
+      intro x hx
+      rcases List.mem_append.mp hx with hx | hx
+      · exact hacc x hx
+      · simp only [List.mem_singleton] at hx; subst hx; exact stripFP_good _ _ g2
+
+theorem patchLoop_noMatch (strip : Nat) : ∀ (fuel : Nat) (inp : Bytes) (wants : Bool) (header : Bytes)
+    (acc : List PFilePatch), patchLoop strip fuel inp wants header acc ≠ .error .noMatch := by
+  intro fuel
+  induction fuel with
+  | zero => intro inp wants header acc; simp [patchLoop]
+  | succ n ih =>
+    intro inp wants header acc
+    unfold patchLoop
+    split
+    · simp
+    · rename_i e hne he
+      intro hc
+      simp only [Except.error.injEq] at hc
+      exact hne hc
+    · exact ih _ _ _ _
+
+
 end RQ.Parse
